@@ -65,6 +65,15 @@ class C19(Property):
                             'scaling': rng.random() < 0.3, 'cycles': False},
                    'cfg': {'nonlinear': None, 'linear': None}, 'recorder': 'model',
                    'fresh': k % 2 == 0, 'exclude_ivc': True}
+        # family: system recorder that leaves out inputs fed by the automatic independent-variable
+        # component (their values are recorded only as outputs, under the promoted input name)
+        for k in range(8 if tier == 'quick' else 150):
+            yield {'gen_seed': rng.randrange(10 ** 9), 'bseed': rng.randrange(10 ** 9),
+                   'opts': {'safe_indices': True, 'implicit': rng.random() < 0.3,
+                            'scaling': rng.random() < 0.3, 'cycles': False, 'auto_ivc_p': 0.5},
+                   'cfg': {'nonlinear': None, 'linear': None}, 'recorder': 'model',
+                   'fresh': k % 2 == 0, 'exclude_ivc': False,
+                   'exclude_auto_in': rng.randrange(1, 10 ** 6)}
         # family: a subsystem overrides System.load_case (the documented hook) and restores its own
         # variables itself; its pathname is, where the model allows, a plain string prefix of a
         # sibling's pathname
@@ -144,6 +153,18 @@ class C19(Property):
                                     exc.append(gm.out_root_name(md, ci, od['name']))
                         p.model.recording_options['excludes'] = exc
                         res['excluded'] = exc
+                    if case.get('exclude_auto_in'):
+                        # some inputs fed by the automatic independent-variable component are left
+                        # out; their values are in the case only as recorded (auto_ivc) outputs
+                        r3 = random.Random(case['exclude_auto_in'])
+                        exi = [gm.comp_path(md['comps'][cn['tgt'][0]]) + '.' + cn['tgt'][1]
+                               for cn in md['conns'] if cn['src'] is None and r3.random() < 0.7 and
+                               # (an input that is not promoted shares its name with the automatic
+                               # source, which the same pattern would then leave out as well)
+                               cn.get('promote_levels')]
+                        p.model.recording_options['excludes'] = \
+                            list(p.model.recording_options['excludes']) + exi
+                        res['excluded_in'] = exi
                 else:
                     p.add_recorder(rec)
                     p.recording_options['record_inputs'] = True
@@ -190,6 +211,8 @@ class C19(Property):
                     if not case['fresh'] else True
                 res['loaded_in'] = {n: np.ravel(tgt.get_val(n)).tolist() for n in names_in}
                 res['loaded_out'] = {n: np.ravel(tgt.get_val(n)).tolist() for n in names_out}
+                res['loaded_src'] = {n: np.ravel(tgt.get_val(n)).tolist()
+                                     for n in res.get('excluded_in', [])}
                 res['a_in'] = a_in
                 res['a_out'] = a_out
                 tgt.run_model()
@@ -233,6 +256,15 @@ class C19(Property):
                 return {'what': 'output after load_case differs from the recorded value', 'var': n,
                         'loaded': impl['loaded_out'][n], 'recorded': v}
         for n, v in impl['a_in'].items():
+            if n in (impl.get('excluded_in') or ()):
+                # not recorded as an input: the input vector only follows at the next run; what the
+                # case holds is the value of its (automatic) source, recorded as an output
+                a, b = np.array(impl['loaded_src'][n]), np.array(v)
+                if a.shape != b.shape or not np.all(np.abs(a - b) <= 1e-12 * np.maximum(1.0, np.abs(b))):
+                    return {'what': 'automatic independent variable after load_case differs from the '
+                                    'recorded value', 'var': n, 'loaded': impl['loaded_src'][n],
+                            'recorded': v}
+                continue
             a, b = np.array(impl['loaded_in'][n]), np.array(v)
             # inputs go through the unit conversion back and forth: a few ulps.  Inside a cycle the
             # recorded input is the value transferred before the last solver iteration, while
@@ -270,7 +302,9 @@ class C19(Property):
                 'recorder=' + case['recorder'], 'fresh=%s' % case['fresh'],
                 'load_case_override' + ('(prefix sibling)' if self._has_prefix_sibling(md, impl) else '')
                 if case.get('override') else 'no_override',
-                'cyclic' if md.get('cyclic') else 'acyclic']
+                'cyclic' if md.get('cyclic') else 'acyclic'] + \
+            (['auto_ivc_inputs_excluded=%d' % min(len(impl.get('excluded_in', [])), 3)]
+             if case.get('exclude_auto_in') else [])
 
     # -- model -----------------------------------------------------------------------------------
     def model_requests(self, case, impl):
